@@ -103,21 +103,20 @@ def names_api(run, ctx):
     if fn is not None:
         c = H.canon(fn["body"])
         n += 1
-        want = "let mut names = Vec::new(); names.resize(self.captures_len(),None); for (name,i) in self.named_groups.iter() {names[i] = Some(name)}; CaptureNames(names.into_iter())"
-        if c.replace("let names", "let mut names") != want and c != want.replace("let mut names", "let names"):
+        if not H.pat_match("let {v} = Vec::new(); {v}.resize(self.captures_len(),None); for ({nm},{i}) in self.named_groups.iter() {{v}[{i}] = Some({nm})}; CaptureNames({v}.into_iter())", c):
             run.violation(fam, label, "capture_names", H.where(fn), "capture_names must yield captures_len() entries with each name at its group's index, found %s" % c)
     fn = S.get_fn(run, ctx, "Captures::name", fam, label)
     if fn is not None:
         c = H.canon(H.peel(fn["body"]))
         N = fn["params"][1].get("name")
         n += 1
-        if c != "self.named_groups.get(%s).and_then(|i| self.get(i))" % N:
+        if not H.pat_match("self.named_groups.get(%s).and_then(|{i}| self.get({i}))" % N, c):
             run.violation(fam, label, "name", H.where(fn), "Captures::name(n) must be get(index of n), found %s" % c)
     fn = S.get_fn(run, ctx, "<SubCaptureMatches as Iterator>::next", fam, label)
     if fn is not None:
         c = H.canon(H.peel(fn["body"]))
         n += 1
-        if c != "if (self.i < len(self.caps)) {let result = self.caps.get(self.i); self.i += 1; Some(result)} else {None}":
+        if not H.pat_match("if (self.i < len(self.caps)) {let {r} = self.caps.get(self.i); self.i += 1; Some({r})} else {None}", c):
             run.violation(fam, label, "iter", H.where(fn), "Captures::iter must yield get(i) for i in 0..len(), found %s" % c)
     fn = S.get_fn(run, ctx, "Captures::iter", fam, label)
     if fn is not None:
@@ -281,7 +280,7 @@ def flags_rule(run, ctx):
     c = H.canon(fn["body"])
     for ch, fl in (("i", "FLAG_CASEI"), ("m", "FLAG_MULTI"), ("s", "FLAG_DOTNL"), ("U", "FLAG_SWAP_GREED"), ("x", "FLAG_IGNORE_SPACE")):
         n += 1
-        if "b'%s' => self.update_flag(%s,neg)" % (ch, fl) not in c:
+        if not H.find_pat(c, "b'%s' => self.update_flag(%s,{neg})" % (ch, fl)):
             run.violation(fam, label, "letter/" + ch, w, "flag letter `%s` must update %s with the current negation" % (ch, fl))
     uf = _fn(run, ctx, "update_flag", fam, label)
     if uf is not None:
@@ -324,9 +323,9 @@ def flags_rule(run, ctx):
     if piece is not None:
         cp = H.canon(piece["body"])
         m += 2
-        if "greedy ^= self.flag(FLAG_SWAP_GREED)" not in cp:
+        if not H.find_pat(cp, "{g} ^= self.flag(FLAG_SWAP_GREED)"):
             run.violation(fam, label, "swap-greed", H.where(piece), "(?U) must swap greediness of every quantifier")
-        if "node = Expr::AtomicGroup(Box::new(node))" not in cp or "if ((ix < len(self.re)) && (b'+' == self.re[ix])) {ix += 1; node = Expr::AtomicGroup(Box::new(node))}" not in cp:
+        if not H.find_pat(cp, "if (({ix} < len(self.re)) && (b'+' == self.re[{ix}])) {{ix} += 1; {node} = Expr::AtomicGroup(Box::new({node}))}"):
             run.violation(fam, label, "possessive", H.where(piece), "a possessive quantifier x*+ must parse to AtomicGroup(Repeat) (documented as equivalent to (?>x*))")
     ow = _fn(run, ctx, "optional_whitespace", fam, label)
     if ow is not None:
@@ -400,22 +399,66 @@ def conditional_rule(run, ctx):
     c = H.canon(fn["body"])
     n = 0
 
-    def need(cond, key, what):
+    def need(pats, key, what):
         nonlocal n
         n += 1
-        if not cond:
+        if isinstance(pats, str):
+            pats = [pats]
+        if not any(H.find_pat(c, p_) for p_ in pats):
             run.violation(fam, label, key, w, "parse_conditional: " + what)
-    need("if_true = alternatives.remove(0)" in c, "true-first", "the first alternative of the body must become the true branch (alternatives.remove(0))")
-    need("if (1 == len(alternatives)) {if_false = alternatives.pop().expect(\"expected 2 alternatives\")} else {if_false = Expr::Alt(alternatives)}" in c,
-         "false-rest", "the remaining alternatives must become the false branch (a single one unwrapped, several kept as an alternation)")
-    need("let mut if_false = Expr::Empty" in c or "let if_false = Expr::Empty" in c, "false-default", "an absent false branch must be Expr::Empty")
-    need("else {if_true = child}" in c, "only-true", "a body without `|` is the true branch")
-    need("let inner_condition = if let Expr::Backref(group) = condition {Expr::BackrefExistsCondition(group)} else {condition}" in c,
-         "group-condition", "a group-number / name condition must become BackrefExistsCondition(group), any other condition is kept as an expression")
-    need("if ((Expr::Empty == if_true) && (Expr::Empty == if_false)) {inner_condition} else {Expr::Conditional{condition:Box::new(inner_condition),false_branch:Box::new(if_false),true_branch:Box::new(if_true)}}" in c
-         or "if ((if_true == Expr::Empty) && (if_false == Expr::Empty)) {inner_condition} else {Expr::Conditional{condition:Box::new(inner_condition),false_branch:Box::new(if_false),true_branch:Box::new(if_true)}}" in c,
+    need("if let Expr::Alt({alts}) = {child} {{t} = {alts}.remove(0);", "true-first", "the first alternative of the body must become the true branch (alternatives.remove(0))")
+    need("if (1 == len({alts})) {{f} = {alts}.pop().expect({*msg})} else {{f} = Expr::Alt({alts})}", "false-rest", "the remaining alternatives must become the false branch (a single one unwrapped, several kept as an alternation)")
+    need("let {f} = Expr::Empty", "false-default", "an absent false branch must be Expr::Empty")
+    need("} else {{t} = {child}}", "only-true", "a body without `|` is the true branch")
+    need("let {ic} = if let Expr::Backref({g}) = {cond} {Expr::BackrefExistsCondition({g})} else {{cond}}", "group-condition",
+         "a group-number / name condition must become BackrefExistsCondition(group), any other condition is kept as an expression")
+    need(["if ((Expr::Empty == {t}) && (Expr::Empty == {f})) {{ic}} else {Expr::Conditional{condition:Box::new({ic}),false_branch:Box::new({f}),true_branch:Box::new({t})}}",
+          "if (({t} == Expr::Empty) && ({f} == Expr::Empty)) {{ic}} else {Expr::Conditional{condition:Box::new({ic}),false_branch:Box::new({f}),true_branch:Box::new({t})}}"],
          "bare-condition", "the bare condition may be returned only when both branches are empty; otherwise Conditional{condition, true_branch: first, false_branch: rest}")
-    need("if (end == next) {if let Expr::Backref(group) = condition {let after = self.check_for_close_paren(end)?; return Ok((after,Expr::BackrefExistsCondition(group)))}" in c
-         or "if (next == end) {if let Expr::Backref(group) = condition {let after = self.check_for_close_paren(end)?; return Ok((after,Expr::BackrefExistsCondition(group)))}" in c,
+    need(["if ({e} == {nx}) {if let Expr::Backref({g}) = {cond} {let {after} = self.check_for_close_paren({e})?; return Ok(({after},Expr::BackrefExistsCondition({g})))}",
+          "if ({nx} == {e}) {if let Expr::Backref({g}) = {cond} {let {after} = self.check_for_close_paren({e})?; return Ok(({after},Expr::BackrefExistsCondition({g})))}"],
          "bare-backref", "(?(N)) alone must succeed iff the group matched: BackrefExistsCondition(N)")
     run.ok(fam, label, w, n, "first alternative = true branch, rest = false branch (Empty if absent), (?(N)) = BackrefExistsCondition")
+
+
+WS_SITES = {
+    # function: (minimum number of skip sites, what each one makes insignificant)
+    "check_for_close_paren": (1, "whitespace / comments before a closing parenthesis (after a back-reference condition nothing else skips them)"),
+    "parse_atom": (1, "whitespace / comments before an atom"),
+    "parse_flags": (1, "whitespace between flag letters"),
+    "parse_group": (1, "whitespace / comments right after an opening parenthesis"),
+    "parse_piece": (2, "whitespace between an atom and its quantifier, and between the quantifier and a lazy `?` / possessive `+`"),
+    "parse_re": (2, "whitespace before `|` and after each alternative"),
+    "parse_repeat": (4, "whitespace inside `{ n , m }`"),
+}
+
+
+def whitespace_sites(run, ctx):
+    """Free-spacing whitespace and (?#..) comments are skipped at every token boundary (C19)."""
+    fam, label = "PARSE", "whitespace-sites"
+    n = 0
+    for name, (floor, what) in WS_SITES.items():
+        fn = _fn(run, ctx, name, fam, label)
+        if fn is None:
+            continue
+        calls = [nd for nd in H.walk(fn["body"]) if nd.get("k") == "MethodCall" and nd["name"] == "optional_whitespace"]
+        n += len(calls)
+        if len(calls) < floor:
+            run.violation(fam, label, "%s/count" % name, H.where(fn),
+                          "%s skips whitespace/comments at %d site(s), %d were confirmed as token boundaries: %s would become significant under (?x) or with a (?#..) comment" % (name, len(calls), floor, what))
+    # the two entry skips happen before anything is examined
+    for name in ("check_for_close_paren", "parse_atom"):
+        fn = _fn(run, ctx, name, fam, label)
+        if fn is None:
+            continue
+        st = fn["body"].get("stmts", [])
+        IX = fn["params"][1].get("name")
+        c0 = H.canon(st[0]) if st else ""
+        if not H.pat_match("let {ix} = self.optional_whitespace(%s)?" % IX, c0):
+            run.violation(fam, label, "%s/first" % name, H.where(fn), "%s must skip whitespace/comments before looking at the next byte (first statement is `%s`)" % (name, c0[:80]))
+    ow = _fn(run, ctx, "optional_whitespace", fam, label)
+    if ow is not None:
+        co = H.canon(ow["body"])
+        if not H.find_pat(co, "b'(' if {b}[{ix}..].starts_with(\"(?#\") =>"):
+            run.violation(fam, label, "comment-group", H.where(ow), "(?#...) comments are skipped in every mode; shape not found")
+    run.ok(fam, label, "src/parse.rs", n, "%d whitespace/comment skip sites at the confirmed token boundaries" % n)
